@@ -70,22 +70,27 @@ DOp(r) ==
      LET o == r.outs[f[3]]  want == Apply(r.op, r.ps) IN
      o.t \notin {"p", "ce"} /\ (IsErr(want) # (o.t = "e"))}
 
+\* ---- kind "ctx": a context built by the library for a key layout, and evaluation through it
+FCtx(r) == {f \in {<<"C06", r.id, k, 0, sig>> : k \in Idx(r.bad), sig \in {"context-panic", "context-hang"}} :
+              IF f[5] = "context-panic" THEN r.bad[f[3]].out = "p" ELSE r.bad[f[3]].out = "to"}
+
 Init == l = 1 /\ judged = 0 /\ nontriv = 0 /\ skipped = 0 /\ drift = 0 /\ found = 0
 Next ==
   /\ l <= Len(Trace)
   /\ l' = l + 1
   /\ LET r == Trace[l]
-         F0 == IF r.kind = "text" THEN FText(r) ELSE FOp(r)
-         K == IF r.kind = "text" THEN KText(r) ELSE KOp(r)
+         F0 == CASE r.kind = "text" -> FText(r) [] r.kind = "ctx" -> FCtx(r) [] OTHER -> FOp(r)
+         K == CASE r.kind = "text" -> KText(r) [] r.kind = "ctx" -> {} [] OTHER -> KOp(r)
          F == F0 \ K
-         D == IF r.kind = "text" THEN DText(r) ELSE DOp(r)
+         D == CASE r.kind = "text" -> DText(r) [] r.kind = "ctx" -> {} [] OTHER -> DOp(r)
      IN /\ \A f \in F : PrintT(<<"F", f[1], f[2], f[3], f[4], f[5]>>)
         /\ \A f \in K : PrintT(<<"K", f[1], f[2], f[3], f[4], IF r.kind = "text" THEN KId(r, f) ELSE "F-C06-5">>)
         /\ \A f \in D : PrintT(<<"DRIFT", f[2], f[3], f[4]>>)
-        /\ judged' = judged + (IF r.kind = "text" THEN Len(r.modes) ELSE Len(r.outs))
+        /\ judged' = judged + (CASE r.kind = "text" -> Len(r.modes) [] r.kind = "ctx" -> r.ncalls [] OTHER -> Len(r.outs))
         /\ nontriv' = nontriv + (IF r.kind = "text"
                                  THEN Card({k \in Idx(r.modes) : r.modes[k].cout = "err" /\ r.len >= 2}) +
                                       Card({k \in Idx(r.modes) : r.modes[k].cout = "ok"})
+                                 ELSE IF r.kind = "ctx" THEN r.ncalls
                                  ELSE Card({k \in Idx(r.outs) : r.outs[k].t = "e"}))
         /\ skipped' = skipped
         /\ drift' = drift + (IF r.kind = "text" /\ r.known THEN Len(r.modes) ELSE IF r.kind = "op" THEN Len(r.outs) ELSE 0)
